@@ -6,9 +6,11 @@ namespace {
 
 void app_cb(void *p) { if (g_sim) { Event e; e.k = EV_APPTMR; e.tick = g_sim->tick; e.a = (uint32_t)(uintptr_t)p; e.b = 0; g_sim->ev.push_back(e); } }
 
-void one_case(Ctx &c) {
+void case_impl(Ctx &c, bool tight) {
   Sim s(c); World w(s);
   s.nodeid = (uint8_t)(1 + c.t.below(127));
+  // mode tight-pool: a timer pool that the concurrent users can fill completely (2..7 slots; SYNC producer + heartbeat need 2 at start-up)
+  if (tight) s.ntmr = (uint16_t)(2 + c.t.below(6));
   static const uint32_t FREQ[3] = {100, 1000, 10000};
   s.freq = FREQ[c.t.below(3)];
   uint32_t tick_ms_num = 1000, tick_ms_den = s.freq;                 // one tick = 1000/freq ms
@@ -71,9 +73,14 @@ void one_case(Ctx &c) {
       case 2: {   // write 1017h through SDO or the dictionary API
         uint32_t np = c.t.chance(50) ? 0 : gen_ticks(); uint16_t ms = ms_of_ticks(np);
         bool api = c.t.coin() || mode == 4;
-        if (api) { s.api_begin(); CO_ERR e = CODictWrWord(&s.node->Dict, CO_DEV(0x1017, 0), ms); s.api_end("CODictWrWord"); CHECK(c, e == CO_ERR_NONE, "hb-write-accepted", "CODictWrWord(1017h, %u ms) failed with %d", ms, e); }
-        else { uint32_t a = cl.write(0x1017, 0, ms, 2); CHECK(c, a == 0, "hb-write-accepted", "SDO write of %u ms to 1017h refused with %08X", ms, a); }
-        VLOG(c, "1017h := %u ms (%u ticks) via %s at tick %ld", ms, np, api ? "API" : "SDO", s.tick);
+        // a running producer owns a timer slot and re-uses it; only switching the producer ON needs a free slot (refusal admitted when the pool is full)
+        bool may_fail = tight && P == 0 && np != 0 && s.timers_used() >= (int)s.ntmr; bool refused = false;
+        if (api) { s.api_begin(); CO_ERR e = CODictWrWord(&s.node->Dict, CO_DEV(0x1017, 0), ms); s.api_end("CODictWrWord"); refused = e != CO_ERR_NONE; if (!may_fail) CHECK(c, e == CO_ERR_NONE, "hb-write-accepted", "CODictWrWord(1017h, %u ms) failed with %d (timer pool: %d of %u slots in use, producer %s)", ms, e, s.timers_used(), s.ntmr, P ? "running" : "off"); }
+        else { uint32_t a = cl.write(0x1017, 0, ms, 2); refused = a != 0; if (!may_fail) CHECK(c, a == 0, "hb-write-accepted", "SDO write of %u ms to 1017h refused with %08X (timer pool: %d of %u slots in use, producer %s)", ms, a, s.timers_used(), s.ntmr, P ? "running" : "off"); }
+        VLOG(c, "1017h := %u ms (%u ticks) via %s at tick %ld%s", ms, np, api ? "API" : "SDO", s.tick, refused ? " (refused: no free timer slot)" : "");
+        CONodeGetErr(s.node);
+        if (refused) { c.cls("switch-on-refused-pool-full"); no_hb_outside_tick("writing 1017h"); break; }
+        if (tight && np != 0 && P != 0 && s.timers_used() >= (int)s.ntmr) c.cls("rewrite-with-full-pool");
         P = np; due = P ? s.tick + (long)P : -1;
         no_hb_outside_tick("writing 1017h");
         break;
@@ -101,6 +108,7 @@ void one_case(Ctx &c) {
       case 12: { uint32_t v = (c.t.coin() ? 0xC0000180u : 0x40000180u) + s.nodeid; if (mode != 4) cl.write(0x1800, 1, v, 4); VLOG(c, "1800h:1 := %08X", v); interfered = true; no_hb_outside_tick("writing a TPDO COB-ID"); break; }
       case 14: {  // NMT reset communication / node: the producer restarts with the configured time at the reset
         uint8_t cs = c.t.coin() ? 130 : 129;
+        if (tight) { int alive = 0; for (int k = 0; k < 4; k++) if (apptm[k] >= 0) alive++; if ((int)s.ntmr - alive < 2) { c.cls("tight-pool-reset-skipped"); break; } }   // the restart of SYNC producer + heartbeat needs 2 slots
         s.clear_tx(); s.rx(Frame::mk(0, 2, {cs, (uint8_t)(c.t.coin() ? 0 : s.nodeid)})); mode = 2;
         int boot = 0;
         for (auto &t : s.tx) if (t.id == HBID) { CHECK(c, t.dlc == 1 && t.d[0] == 0, "hb-only-when-due", "NMT reset made the node send %s on the heartbeat identifier (only the boot-up frame is expected)", t.str().c_str()); boot++; }
@@ -120,13 +128,17 @@ void one_case(Ctx &c) {
   char f[32]; snprintf(f, sizeof f, "freq-%u", s.freq); c.cls(f);
 }
 
+void one_case(Ctx &c) { case_impl(c, false); }
+void tight_case(Ctx &c) { case_impl(c, true); }
+
 Registrar reg(Prop{
     "C10",
-    "Cases: node id 1..127, timer frequency in {100, 1000, 10000} Hz, initial 1017h 0 or a whole number of ticks (1..200 ticks), concurrent timer users (SYNC producer on/off, an event-driven TPDO with inhibit/event time, a heartbeat consumer, up to 4 application timers); "
+    "Cases: node id 1..127, timer frequency in {100, 1000, 10000} Hz, initial 1017h 0 or a whole number of ticks (1..200 ticks), concurrent timer users (SYNC producer on/off, an event-driven TPDO with inhibit/event time, a heartbeat consumer, up to 4 application timers); mode tight-pool: the same with a timer pool of 2..7 slots which these users can fill completely - a running producer re-uses its slot, so rewriting 1017h must succeed with a full pool; only switching the producer on with a full pool may be refused; "
     "histories of up to 300 ops: single ticks, jumps to the next expected heartbeat, SDO/API writes to 1017h (0 or valid), NMT start/stop/pre-operational commands, SDO writes to TPDO event/inhibit time and COB-ID, to 1005h/1006h, TPDO triggers, asynchronous object writes, SYNC and heartbeat frames, application timers created and deleted (only while owned). "
     "Oracle: per tick the number of frames on 700h+id equals the reference schedule t_arm + k*P (t_arm = initialisation or the last accepted write), content = one byte with the NMT state at emission; no heartbeat frame outside a timer step. "
     "Non-trivial: >= 3 heartbeats observed and >= 1 of them after an interfering operation. Distinct = distinct decoded choice sequence.",
-    {Mode{"random", one_case, false, 1200000, 20000000, 0, 0, 300, 500}},
+    {Mode{"random", one_case, false, 800000, 13000000, 0, 0, 300, 500},
+     Mode{"tight-pool", tight_case, false, 500000, 8000000, 0, 0, 300, 500}},
     {"heartbeat times below one tick are outside the domain (timer creation legitimately fails)", "all generated times are whole numbers of ticks", "an application timer id is deleted only while the application owns it (cyclic, or one-shot not yet fired)"}});
 
 }  // namespace
